@@ -486,6 +486,24 @@ int main(int argc, char **argv) {
   if (mode == "run") return mode_run(a);
   if (mode == "investigate") return mode_investigate(a);
   if (mode == "replay") return mode_replay(a);
+  if (mode == "dtest") {   // debugging aid: run one index twice (generate, then replay its decisions) and print the first differing trace line
+    const HarnessDef *h = find_harness(a.harness.c_str());
+    if (!h) return 2;
+    g_tier = a.tier;
+    uint64_t seed = run_seed(a.seed, a.index);
+    Run o1, o2;
+    run_one(h, seed, nullptr, true, nullptr, &o1);
+    run_one(h, seed, &o1.eff, true, nullptr, &o2);
+    size_t n = std::min(o1.trace_lines.size(), o2.trace_lines.size());
+    size_t i = 0;
+    while (i < n && o1.trace_lines[i] == o2.trace_lines[i]) i++;
+    printf("lines %zu / %zu, first difference at %zu\n", o1.trace_lines.size(), o2.trace_lines.size(), i);
+    for (size_t k = i > 12 ? i - 12 : 0; k < i + 6; k++) {
+      printf("A: %s\n", k < o1.trace_lines.size() ? o1.trace_lines[k].c_str() : "-");
+      if (k >= i) printf("B: %s\n", k < o2.trace_lines.size() ? o2.trace_lines[k].c_str() : "-");
+    }
+    return 0;
+  }
   fprintf(stderr, "unknown mode\n");
   return 2;
 }
